@@ -190,15 +190,15 @@ PROPS["C16"] = dict(
     stages=[dict(name="table", driver="c16_table", flavour="asan")],
 )
 PROPS["C17"] = dict(
-    level="exploration", deadline_quick=600,
+    level="exploration", deadline_quick=600, deadline_thorough=1500,
     technique="exhaustive enumeration of a version-edit field grid and of all 2^32 varint32 values through the real encoder/decoder vs an independent MANIFEST codec; plus crash-point x crash-image enumeration of MANIFEST/CURRENT switches recovered by the real ldb_open",
     rule="edit grid: 32 scalar-field masks x 25 boundary values x comparator shapes; 7 levels x 8 key shapes x file counts {0,1,3,2000} x compact pointers; level >= 7 rejection; every proper prefix of encoded edits; all byte strings <=2 (quick) / <=3 (thorough) differentially; varint32: all values < 2^21 plus windows around 2^7k (quick), all 2^32 (thorough); crash stage: every journal index of histories with reopen (new MANIFEST + CURRENT switch, reuse_logs appends) x image classes; replay stage: histories incl. a MANIFEST grown past one 32 KiB block (about 100 edits with 300-byte keys) with and without reuse across reopens: the reported layout equals the fold of the MANIFEST decoded independently, reopen reproduces it, reads stay right; distinct = distinct encoded-edit length classes",
     distinct_key="edit_len_class", assumptions=E5_ASSUME + E3_ASSUME,
-    stages=[dict(name="edit", driver="c17_edit", flavour="asan"),
-            e3_stage("C17", 2, 3, "B1;B1,reuse=1", CFG_T, classes=0x7f),
+    stages=[e3_stage("C17", 2, 3, "B1;B1,reuse=1", CFG_T, classes=0x7f),
             dict(name="replay", driver="hist", flavour="asan", args=["--alphabet", "rw", "--oracle", "get,layout"],
                  quick=["--plan", plan(LONGMAN_ITEMS + ["B1,reuse=1@2^P0.1 F O P1.1 F O", "B1,reuse=1@3/2"])],
-                 thorough=["--plan", plan(LONGMAN_ITEMS + ["B1,reuse=1,uni=2@2^" + L_LONGMAN, "B1,reuse=1@3^P0.1 F O P1.1 F O", "B1,reuse=1@4/3", "B1,reuse=1,snappy=1,bloom=1@3/2"])])],
+                 thorough=["--plan", plan(LONGMAN_ITEMS + ["B1,reuse=1,uni=2@2^" + L_LONGMAN, "B1,reuse=1@3^P0.1 F O P1.1 F O", "B1,reuse=1@4/3", "B1,reuse=1,snappy=1,bloom=1@3/2"])]),
+            dict(name="edit", driver="c17_edit", flavour="asan")],
 )
 PROPS["C18"] = dict(
     level="exploration",
